@@ -255,7 +255,8 @@ func buildMultipart(operations string, mapField *string, files []mpFile) (string
 }
 
 var c07Paths = []string{"", "variables", "variables.f", "variables.o.f", "variables.l.0", "variables.l.-1", "variables.l.9", "variables.l.x", "variables.l",
-	"0.variables.f", "9.variables.f", "0", "x.variables.f", "variables.s.f", "variables.missing", "1.variables.f", "variables.o.fs.0", "variables.f.x"}
+	"0.variables.f", "9.variables.f", "0", "x.variables.f", "variables.s.f", "variables.missing", "1.variables.f", "variables.o.fs.0", "variables.f.x",
+	"variables.l.18446744073709551615", "18446744073709551615.variables.f", "variables.l.+1", "variables.l.4294967296"}
 
 const c07UploadQ = "mutation ($f: Upload, $o: UpIn, $l: [Upload], $s: String) { upload(f: $f) uploadMany(fs: $l) uploadIn(in: $o) }"
 
@@ -486,7 +487,7 @@ func init() {
 		ID:    "C07",
 		Level: "exploration",
 		Rule: "grammars enumerated exhaustively: (raw) every string of length <=5 (thorough <=6) over the alphabet [ ] { } \" : , space a 1 n as application/json body; (json) every JSON tree with <=5 (6) nodes over " +
-			"{null,true,1,\"\",valid query,invalid query,[],{}} with object keys {query,variables,operationName,x}; (ctypes) content types; (multipart) operations single/batch x maps with <=2 files x <=2 paths over an 18-path alphabet, " +
+			"{null,true,1,\"\",valid query,invalid query,[],{}} with object keys {query,variables,operationName,x}; (ctypes) content types; (multipart) operations single/batch x maps with <=2 files x <=2 paths over a 22-path alphabet, " +
 			"missing file parts, malformed map/operations; (corner) every valid operation with <=3 fields on corner-case schemas; oracle: process alive, handler returned, JSON body with data and/or errors, status in {200,422} " +
 			"with a three-valued reference (must-422 / must-200 / either), and a canonical follow-up request still answered correctly; non-trivial = the request reached decoding",
 		Assumptions: []string{"POST only (other methods are routed elsewhere by Handler)", "grey zone (either status): duplicate or case-variant keys, case-variant media types, duplicate map paths",
